@@ -31,6 +31,8 @@ def out_dir():
     (used by the sensitivity driver so that runs against mutants never touch the committed evidence)."""
     return os.environ.get("VERIF_OUT") or boot.VERIF
 PREPARE_FIRST = {"C20"}
+# thorough tier: generated-case budgets are the per-sub "thorough" numbers times this factor (5-15 min per property on 16 idle cores)
+THOROUGH_FACTOR = float(os.environ.get("VERIF_THOROUGH_FACTOR", "4"))
 
 
 class Violation(Exception):
@@ -143,7 +145,7 @@ def run_sub(sub, prop, tier, seed, shard, nshards, rec, budget, only_kind_limit=
     from hypothesis.errors import HypothesisException
     rec.sub = sub.name
     out = []
-    n = int(math.ceil(sub.budget[tier] / nshards))
+    n = int(math.ceil(sub.budget[tier] * (THOROUGH_FACTOR if tier == "thorough" else 1) / nshards))
 
     def guarded(case, excluded):
         if budget.over():
@@ -230,7 +232,7 @@ def run_fuzz(mod, seed, shard, nshards, rec, res):
     corpus directory; the semantic oracle runs inside the target (vlib/fuzz.py)."""
     out = []
     targets = sorted(mod.FUZZ)
-    runs_total = getattr(mod, "FUZZ_RUNS", 160000)
+    runs_total = int(getattr(mod, "FUZZ_RUNS", 160000) * THOROUGH_FACTOR)
     for ti, target in enumerate(targets):
         work = os.path.join(out_dir(), ".work", mod.PROPERTY)
         stats = os.path.join(work, f"fuzz_{target}_{shard}.json")
@@ -302,6 +304,11 @@ def shard_main(mod, tier, seed, shard, nshards, outpath, wall):
                     res["violations"].append({"sub": sub.name, "kind": v.kind, "message": v.msg[:2000],
                                               "case": rp["case"], "from_replay": fn})
         for sub in mod.SUBS:
+            if not getattr(sub, "_scaled", False):
+                # per-property scale of the quick budgets (set after measuring: the quick tier should take well under a
+                # minute per property on 16 idle cores)
+                sub.budget["quick"] = int(sub.budget["quick"] * getattr(mod, "QUICK_SCALE", 1))
+                sub._scaled = True
             ts = time.time()
             res["violations"].extend(run_sub(sub, mod.PROPERTY, tier, seed, shard, nshards, rec, budget))
             rec.per_sub.setdefault(sub.name, {"evaluations": 0, "nontrivial": 0})["wall_s"] = round(time.time() - ts, 2)
